@@ -13,6 +13,7 @@ import (
 	"pgregory.net/rapid"
 
 	"verif/harness/internal/ev"
+	"verif/harness/internal/gen"
 	"verif/harness/internal/mptkit"
 	"verif/harness/internal/rounds"
 )
@@ -191,5 +192,85 @@ func TestChainModeLaggedFinalize(t *testing.T) {
 		finalize(len(s.Rounds))
 		nt := len(s.Rounds) >= 2 && s.MergedAndDiscarded && s.Recreate
 		ev.Case(desc, nt, "chain-mode", fmt.Sprintf("lag:%d", lag))
+	})
+}
+
+// Large rounds (more than 256 changed nodes, the node store's batch size) with every crash prefix of their write stream.
+func TestLargeRoundCrash(t *testing.T) {
+	ev.Rapid(t, 3, 40)
+	rapid.Check(t, func(rt *rapid.T) {
+		n := gen.Uniform(rt, 400, 1200, "nkeys")
+		key := func(i int) string { return fmt.Sprintf("%02x%02x%02x", (i*37)%256, (i*11)%256, i%251) }
+		s := &rounds.Script{}
+		model := map[string][]byte{}
+		for r := 0; r < 2; r++ {
+			var ops []mptkit.Op
+			for i := r; i < n; i += 1 + r {
+				v := []byte{byte(r + 1), byte(i), byte(i >> 8)}
+				ops = append(ops, mptkit.Op{Kind: "ins", Path: key(i), Val: fmt.Sprintf("%x", v)})
+				model[key(i)] = v
+			}
+			half := len(ops) / 2
+			s.Rounds = append(s.Rounds, rounds.Round{Version: int64(r + 1), Txns: []rounds.Txn{{Ops: ops[:half], Merge: true}, {Ops: ops[half:], Merge: true}}})
+			s.Models = append(s.Models, mptkit.CopyContent(model))
+		}
+		dir := rounds.NewDir()
+		defer mptkit.DropDir(dir)
+		var saved []rounds.Saved
+		var prevRoot []byte
+		desc := fmt.Sprintf("large history: %d keys, 2 rounds", n)
+		for i, rd := range s.Rounds {
+			pre := rounds.NewDir()
+			grocksdb.CloneStore(dir, pre)
+			st := grocksdb.StoreFor(dir)
+			st.ResetFaults()
+			root, dead, err := rounds.ExecRound(dir, prevRoot, rd)
+			if err != nil {
+				rt.Fatalf("%s: round %d: %v", desc, i, err)
+			}
+			W := st.Writes()
+			saved = append(saved, rounds.Saved{Version: rd.Version, Root: root, Model: s.Models[i], Dead: dead})
+			for _, sv := range saved {
+				if err := rounds.CheckReadable(dir, sv); err != nil {
+					rt.Fatalf("%s: after saving round %d: %v", desc, i, err)
+				}
+			}
+			// the number of writes a crash run issues may differ from the crash-free run; enumerate until a run completes
+			for nn := 0; nn < W+64; nn++ {
+				cdir := rounds.NewDir()
+				cs := grocksdb.CloneStore(pre, cdir)
+				cs.SetCrashAfter(nn)
+				_, _, cerr := rounds.ExecRound(cdir, prevRoot, rd)
+				crashed := cs.Crashed()
+				cs.ResetFaults()
+				if cerr == nil && crashed {
+					if err := rounds.CheckReadable(cdir, saved[i]); err != nil {
+						rt.Fatalf("%s: round %d save returned nil although write %d was refused, and the state is incomplete: %v", desc, i, nn, err)
+					}
+				}
+				for _, sv := range saved[:i] {
+					if err := rounds.CheckReadable(cdir, sv); err != nil {
+						rt.Fatalf("%s: crash in round %d after %d writes damaged an earlier root: %v", desc, i, nn, err)
+					}
+				}
+				root2, _, err := rounds.ExecRound(cdir, prevRoot, rd)
+				if err != nil || !bytes.Equal(root2, root) {
+					rt.Fatalf("%s: re-executing round %d after crash at %d: root %x err %v, crash-free root %x", desc, i, nn, root2, err, root)
+				}
+				for _, sv := range saved {
+					if err := rounds.CheckReadable(cdir, sv); err != nil {
+						rt.Fatalf("%s: after crash at write %d in round %d, restart, re-execute and re-save: %v", desc, nn, i, err)
+					}
+				}
+				mptkit.DropDir(cdir)
+				ev.Case(fmt.Sprintf("%s|%d|%d", desc, i, nn), true, "large-round-crash-prefix")
+				if !crashed {
+					break // the injected point lies beyond the stream: all prefixes are covered
+				}
+			}
+			mptkit.DropDir(pre)
+			prevRoot = root
+		}
+		ev.Sample(map[string]any{"large_history_keys": n, "rounds": 2})
 	})
 }
